@@ -690,7 +690,9 @@ func c10LargeCancel(r *vk.Run) {
 			var probs []string
 			for _, p := range problems {
 				probs = append(probs, p.Path+": "+p.Error)
-				if strings.Contains(p.Error, "cancelled") {
+				// "unable to create/swap file: transition cancelled" = preempted inside the copy;
+				// a bare "transition cancelled" = cancelled before the change was started.
+				if strings.Contains(p.Error, "file: transition cancelled") {
 					preempted = true
 				}
 			}
